@@ -53,6 +53,7 @@ def signs(objs, mtx):
 def run_impl(case):
     try:
         from skcriteria.pipeline import mkpipe
+        I.set_salt(case.get("matrix"))
         dm = I.mk(case)
         before = {"signs": signs(case["objectives"], case["matrix"]),
                   "dom0": dm.dominance.dominance(strict=False).to_numpy().tolist(),
